@@ -19,54 +19,64 @@ use rosu_pp::{
 
 use crate::spec::MODES;
 
+/// `-0.0` and `0.0` are the same number (`PartialEq` of the attribute types agrees), so digests
+/// do not distinguish them: a check must not fail on a sign of zero.
+pub fn nz(s: String) -> String {
+    if s.contains("-0.0") {
+        crate::trace::normalise_negative_zero(&s)
+    } else {
+        s
+    }
+}
+
 pub fn decode(text: &str) -> Beatmap {
     Beatmap::from_bytes(text.as_bytes()).expect("harness: in-memory decode cannot fail")
 }
 
 pub fn dig_da(a: &DifficultyAttributes) -> String {
     match a {
-        DifficultyAttributes::Osu(x) => format!("{x:?}"),
-        DifficultyAttributes::Taiko(x) => format!("{x:?}"),
-        DifficultyAttributes::Catch(x) => format!("{x:?}"),
-        DifficultyAttributes::Mania(x) => format!("{x:?}"),
+        DifficultyAttributes::Osu(x) => nz(format!("{x:?}")),
+        DifficultyAttributes::Taiko(x) => nz(format!("{x:?}")),
+        DifficultyAttributes::Catch(x) => nz(format!("{x:?}")),
+        DifficultyAttributes::Mania(x) => nz(format!("{x:?}")),
     }
 }
 
 pub fn dig_pa(a: &PerformanceAttributes) -> String {
     match a {
-        PerformanceAttributes::Osu(x) => format!("{x:?}"),
-        PerformanceAttributes::Taiko(x) => format!("{x:?}"),
-        PerformanceAttributes::Catch(x) => format!("{x:?}"),
-        PerformanceAttributes::Mania(x) => format!("{x:?}"),
+        PerformanceAttributes::Osu(x) => nz(format!("{x:?}")),
+        PerformanceAttributes::Taiko(x) => nz(format!("{x:?}")),
+        PerformanceAttributes::Catch(x) => nz(format!("{x:?}")),
+        PerformanceAttributes::Mania(x) => nz(format!("{x:?}")),
     }
 }
 
 pub fn dig_strains(s: &Strains) -> String {
     match s {
-        Strains::Osu(x) => format!("{x:?}"),
-        Strains::Taiko(x) => format!("{x:?}"),
-        Strains::Catch(x) => format!("{x:?}"),
-        Strains::Mania(x) => format!("{x:?}"),
+        Strains::Osu(x) => nz(format!("{x:?}")),
+        Strains::Taiko(x) => nz(format!("{x:?}")),
+        Strains::Catch(x) => nz(format!("{x:?}")),
+        Strains::Mania(x) => nz(format!("{x:?}")),
     }
 }
 
 /// One-shot difficulty for `target` mode (converting if necessary).
 pub fn oneshot_diff(d: &Difficulty, map: &Beatmap, target: usize) -> Result<String, String> {
     let r = match target {
-        0 => d.calculate_for_mode::<Osu>(map).map(|a| format!("{a:?}")),
-        1 => d.calculate_for_mode::<Taiko>(map).map(|a| format!("{a:?}")),
-        2 => d.calculate_for_mode::<Catch>(map).map(|a| format!("{a:?}")),
-        _ => d.calculate_for_mode::<Mania>(map).map(|a| format!("{a:?}")),
+        0 => d.calculate_for_mode::<Osu>(map).map(|a| nz(format!("{a:?}"))),
+        1 => d.calculate_for_mode::<Taiko>(map).map(|a| nz(format!("{a:?}"))),
+        2 => d.calculate_for_mode::<Catch>(map).map(|a| nz(format!("{a:?}"))),
+        _ => d.calculate_for_mode::<Mania>(map).map(|a| nz(format!("{a:?}"))),
     };
     r.map_err(|e| format!("convert error: {e:?}"))
 }
 
 pub fn oneshot_strains(d: &Difficulty, map: &Beatmap, target: usize) -> Result<String, String> {
     let r = match target {
-        0 => d.strains_for_mode::<Osu>(map).map(|a| format!("{a:?}")),
-        1 => d.strains_for_mode::<Taiko>(map).map(|a| format!("{a:?}")),
-        2 => d.strains_for_mode::<Catch>(map).map(|a| format!("{a:?}")),
-        _ => d.strains_for_mode::<Mania>(map).map(|a| format!("{a:?}")),
+        0 => d.strains_for_mode::<Osu>(map).map(|a| nz(format!("{a:?}"))),
+        1 => d.strains_for_mode::<Taiko>(map).map(|a| nz(format!("{a:?}"))),
+        2 => d.strains_for_mode::<Catch>(map).map(|a| nz(format!("{a:?}"))),
+        _ => d.strains_for_mode::<Mania>(map).map(|a| nz(format!("{a:?}"))),
     };
     r.map_err(|e| format!("convert error: {e:?}"))
 }
@@ -141,7 +151,7 @@ impl Dig for DifficultyAttributes {
     }
 }
 macro_rules! dig_debug {
-    ($($t:ty),*) => { $( impl Dig for $t { fn dig(&self) -> String { format!("{self:?}") } } )* };
+    ($($t:ty),*) => { $( impl Dig for $t { fn dig(&self) -> String { nz(format!("{self:?}")) } } )* };
 }
 dig_debug!(
     rosu_pp::osu::OsuDifficultyAttributes,
@@ -222,28 +232,28 @@ impl AnyGP {
     pub fn nth(&mut self, s: ScoreState, n: usize) -> Option<String> {
         match self {
             AnyGP::E(g) => g.nth(s, n).map(|a| dig_pa(&a)),
-            AnyGP::O(g) => g.nth(s.into(), n).map(|a| format!("{a:?}")),
-            AnyGP::T(g) => g.nth(s.into(), n).map(|a| format!("{a:?}")),
-            AnyGP::C(g) => g.nth(s.into(), n).map(|a| format!("{a:?}")),
-            AnyGP::M(g) => g.nth(s.into(), n).map(|a| format!("{a:?}")),
+            AnyGP::O(g) => g.nth(s.into(), n).map(|a| nz(format!("{a:?}"))),
+            AnyGP::T(g) => g.nth(s.into(), n).map(|a| nz(format!("{a:?}"))),
+            AnyGP::C(g) => g.nth(s.into(), n).map(|a| nz(format!("{a:?}"))),
+            AnyGP::M(g) => g.nth(s.into(), n).map(|a| nz(format!("{a:?}"))),
         }
     }
     pub fn next(&mut self, s: ScoreState) -> Option<String> {
         match self {
             AnyGP::E(g) => g.next(s).map(|a| dig_pa(&a)),
-            AnyGP::O(g) => g.next(s.into()).map(|a| format!("{a:?}")),
-            AnyGP::T(g) => g.next(s.into()).map(|a| format!("{a:?}")),
-            AnyGP::C(g) => g.next(s.into()).map(|a| format!("{a:?}")),
-            AnyGP::M(g) => g.next(s.into()).map(|a| format!("{a:?}")),
+            AnyGP::O(g) => g.next(s.into()).map(|a| nz(format!("{a:?}"))),
+            AnyGP::T(g) => g.next(s.into()).map(|a| nz(format!("{a:?}"))),
+            AnyGP::C(g) => g.next(s.into()).map(|a| nz(format!("{a:?}"))),
+            AnyGP::M(g) => g.next(s.into()).map(|a| nz(format!("{a:?}"))),
         }
     }
     pub fn last(&mut self, s: ScoreState) -> Option<String> {
         match self {
             AnyGP::E(g) => g.last(s).map(|a| dig_pa(&a)),
-            AnyGP::O(g) => g.last(s.into()).map(|a| format!("{a:?}")),
-            AnyGP::T(g) => g.last(s.into()).map(|a| format!("{a:?}")),
-            AnyGP::C(g) => g.last(s.into()).map(|a| format!("{a:?}")),
-            AnyGP::M(g) => g.last(s.into()).map(|a| format!("{a:?}")),
+            AnyGP::O(g) => g.last(s.into()).map(|a| nz(format!("{a:?}"))),
+            AnyGP::T(g) => g.last(s.into()).map(|a| nz(format!("{a:?}"))),
+            AnyGP::C(g) => g.last(s.into()).map(|a| nz(format!("{a:?}"))),
+            AnyGP::M(g) => g.last(s.into()).map(|a| nz(format!("{a:?}"))),
         }
     }
     pub fn len(&self) -> usize {
